@@ -6,4 +6,6 @@ CONSTANTS
   Vias <- ViasAll
   MaxInject = 1
   Spoof = TRUE
-INVARIANTS ReplyIffValid ExactlyOne ToSender ReplyHeader NeverAnswersReply BoundedTraffic
+  RestoreAtTop = TRUE
+CONSTRAINTS GenDeep
+INVARIANTS ReplyIffValid ExactlyOne ToSender ReplyHeader NeverAnswersReply BoundedTraffic HistoryIndependence
